@@ -175,7 +175,7 @@ def with_ancestors(ignored, rel):
 
 def run(ctx):
     quick = ctx.tier == "quick"
-    ntrees = 40 if quick else 400
+    ntrees = 40 if quick else 2000
     scratch = common.new_scratch()
     genv = {"HOME": os.path.join(scratch, "home"), "PATH": "/usr/bin:/bin", "GIT_CONFIG_NOSYSTEM": "1"}
     try:
